@@ -14,11 +14,11 @@ rsync -a --delete --exclude 'target*' "$SRC"/ $W/harness/
 sed -i "s#dsi-bitstream = { path = \"[^\"]*\" }#dsi-bitstream = { path = \"$W/repo\" }#" $W/harness/Cargo.toml
 cd $W/harness
 export CARGO_NET_OFFLINE=true
-for prof in release dbg; do
+for prof in ${PROFILES:-release dbg}; do
   cargo build --profile $prof --offline --target-dir $W/target 2>&1 | grep -E "^error" -A8 | head -20
 done
 for P in "$@"; do
-  for prof in release dbg; do
+  for prof in ${PROFILES:-release dbg}; do
     out=$(timeout 1200 $W/target/$prof/dsiverif run $P --tier ${TIER:-quick} --seed ${VERIF_SEED:-0} --out $W/res.json 2>/dev/null | grep '^\[dsiverif\]' | head -${LINES_MAX:-4} | cut -c1-230)
     echo "[$P/$prof] $out"
   done
